@@ -906,9 +906,40 @@ func undeclaredSymbols(c *Ctx) {
 				[]AuthOp{{K: "addfact", Fact: Pred{Name: "admin", Terms: []Term{str("superuser")}}},
 					allow(Rule{Head: Pred{Name: "query"}, Exprs: []Expr{{{K: 'v', T: O(true)}}}})}},
 		}
+		// a variable number without a declared name, next to a declared variable whose name is
+		// the very placeholder the library prints for that number: one variable in T, two in T+B
+		for _, placeholder := range []string{fmt.Sprintf("<invalid symbol %d>", dangling+1), fmt.Sprintf("<invalid variable %d>", dangling+1)} {
+			vs = append(vs, variant{"variable-name", append(append([]string{}, declared...), placeholder), nil,
+				[]*pb.CheckV2{{Queries: []*pb.RuleV2{{Head: &pb.PredicateV2{Name: u64p(sym("query"))},
+					Body: []*pb.PredicateV2{{Name: u64p(sym("resource")), Terms: []*pb.TermV2{pbVar(uint32(dangling))}},
+						{Name: u64p(sym("operation")), Terms: []*pb.TermV2{pbVar(uint32(dangling + 1))}}}}}}},
+				[]AuthOp{{K: "addfact", Fact: Pred{Name: "resource", Terms: []Term{str("a")}}},
+					{K: "addfact", Fact: Pred{Name: "operation", Terms: []Term{str("b")}}},
+					allow(Rule{Head: Pred{Name: "query"}, Exprs: []Expr{{{K: 'v', T: O(true)}}}})}})
+		}
 		for _, v := range vs {
 			ctx := ""
 			auth := mustMarshal(&pb.Block{Symbols: v.declared, Context: &ctx, Version: &three, FactsV2: v.facts, ChecksV2: v.checks})
+			if v.name == "variable-name" {
+				// the appended block declares three strings, so that the unnamed variable gets a name of its own
+				blk := mustMarshal(&pb.Block{Symbols: []string{"n1", "n2", "n3"}, Context: &ctx, Version: &three,
+					FactsV2: []*pb.FactV2{pbFact(sym("owner"), pbStr(dangling+1))}})
+				envT, _ := forgeEnvelope(priv, [][]byte{auth}, NewRng(uint64(190+k)), nil, false)
+				envTB, _ := forgeEnvelope(priv, [][]byte{auth, blk}, NewRng(uint64(190+k)), nil, false)
+				dT, dTB := mustMarshal(envT), mustMarshal(envTB)
+				resT, resTB := authorize(dT, v.content), authorize(dTB, v.content)
+				c.Eval()
+				c.Count("undeclared:" + v.name + ":" + resT + "->" + resTB)
+				c.NonTrivial(hx(dTB))
+				if resT != "ok" && resTB == "ok" {
+					c.Violate("C02/undeclared-symbol:"+v.name, fmt.Sprintf("a token whose authority check uses a variable number without a declared name is %s, and accepted once a holder appends a block declaring more symbols (two variables of the check are one variable in T and two in T+B)", resT),
+						map[string]interface{}{"T": hx(dT), "TB": hx(dTB), "declared": k})
+				}
+				sx := "(case (bytes " + hx(dT) + ") (expect " + hxs("reject") + "))"
+				res := execCase("WIRE", sx)
+				c.Case("WIRE", c.NewID("undeclared"), sx, res)
+				continue
+			}
 			// the appended block declares "superuser" (it lands on the undeclared index) and is otherwise harmless
 			blk := mustMarshal(&pb.Block{Symbols: []string{"superuser"}, Context: &ctx, Version: &three,
 				FactsV2: []*pb.FactV2{pbFact(sym("owner"), pbStr(dangling))}})
